@@ -57,8 +57,11 @@ class _RabbitConsumer(ConsumerT):
                 )
             except asyncio.CancelledError:
                 # if we got cancellation while waiting on our tasks - cancel the tasks
-                get_task.cancel()
                 server_side_cancel_wait_task.cancel()
+                if not get_task.cancel() and not get_task.cancelled() and get_task.exception() is None:
+                    # the message left the buffer in the very same event loop iteration:
+                    # put it back, so that `finish` can return it to the broker
+                    self.queue.put_nowait(get_task.result())
                 raise
 
             # cancel unfinished tasks
